@@ -475,7 +475,13 @@ Print Assumptions C02_built_contracts.
        eigenvector argument, not formalised);
    (c) for the re-scaled Galerkin operator of plain aggregation the Galerkin condition of
        hier_dec does not hold (A_c = s R A P with s <> 1), B1 is stated for coarse_op = galerkin.
-   FULL STATEMENT (unproved), B2 scaling: apply (amg_init (c*A)) = (1/c) * apply (amg_init A). *)
+   B2 scaling: proved below (C02_built_apply_scaling) for damped Jacobi, SPAI-0, Gauss-Seidel and the
+   exact coarse solve.
+   FULL STATEMENT (unproved), rest of B2: the same for the ILU(0) and Chebyshev smoothers
+   (ilu_sweep (ilu0 (c*A)) f x = ilu_sweep (ilu0 A) (f/c) x, the factors being L, c*U, D/c; Chebyshev
+   with the Gershgorin bound for c > 0) -- covered by the scaling oracle on the implementation
+   (tools/props/C02.py) only; and the binary64 statement (every operation of set-up and cycle is
+   homogeneous in A, so multiplying by 2^k only shifts exponents) -- tested bitwise, not proved. *)
 
 (* ================================================================== *)
 (* closed instances at the exact rationals *)
@@ -713,4 +719,162 @@ Example C02_example_asymmetric_when_npre_ne_npost :
        (dot exF (fst (apply 2 2 2 2 exLvlsGS exScr0 exG z))) = true /\
   seqb (dot (B 1 0 exF) exG) (dot exF (B 1 0 exG)) = false /\
   seqb (dot (B 2 1 exF) exG) (dot exF (B 2 1 exG)) = false.
+Proof. vm_compute. auto. Qed.
+
+(* ================================================================== *)
+(* B2  scaling (AmgScale.v - AmgScale4.v).  mscale A c multiplies every stored value of A by c
+   ("A.val[j] *= c"); vsc a f = a * f; dsc c scales the matrix of a level descriptor and keeps its
+   transfer operators.  Commutative ring for the set-up and the cycle (c * ci = 1), field for the
+   smoothers and the exact solve (ci = 1/c). *)
+From Amgcl Require Import AmgScale AmgScale2 AmgScale3 AmgScale4.
+
+(* set-up: the hierarchy of c*M built with the transfer operators of M has the level matrices
+   c*A_l -- as CRS structures, not only as dense matrices -- the same P_l, R_l and the same level
+   structure (sizes decide coarse_enough / max_levels / direct_coarse) *)
+Theorem C02_galerkin_scales {S : Scalar} (Srt : Sring S) (c s : S) (A P R : crs S) :
+  galerkin (mscale A c) P R = mscale (galerkin A P R) c /\
+  scaled_galerkin s (mscale A c) P R = mscale (scaled_galerkin s A P R) c /\
+  sort_rows (mscale A c) = mscale (sort_rows A) c.
+Proof.
+  exact (conj (galerkin_mscale Srt c A P R)
+              (conj (scaled_galerkin_mscale Srt c s A P R) (sort_rows_mscale c A))).
+Qed.
+Print Assumptions C02_galerkin_scales.
+
+Theorem C02_setup_commutes_with_scaling {S : Scalar} (Srt : Sring S) (c : S) ce dc ml sc ts (M : crs S) :
+  amg_init ce dc ml (coarse_op_of sc) ts (mscale M c) =
+  map (dsc c) (amg_init ce dc ml (coarse_op_of sc) ts M).
+Proof. exact (amg_init_mscale c ce dc ml (coarse_op_of sc) (coarse_op_of_scales Srt c sc) ts M). Qed.
+Print Assumptions C02_setup_commutes_with_scaling.
+
+Theorem C02_rebuild_commutes_with_scaling {S : Scalar} (Srt : Sring S) (c : S) sc
+  (ls : list (@ldesc S)) (M : crs S) :
+  amg_rebuild (coarse_op_of sc) (map (dsc c) ls) (mscale M c) =
+  map (dsc c) (amg_rebuild (coarse_op_of sc) ls M).
+Proof. exact (amg_rebuild_mscale c (coarse_op_of sc) (coarse_op_of_scales Srt c sc) ls M). Qed.
+Print Assumptions C02_rebuild_commutes_with_scaling.
+
+(* cycle and apply of two hierarchies in lock step.  hier_sim c ci lvls' lvls: level matrices
+   A'_l = c*A_l, same P_l, R_l, and smoothers / coarse solver of lvls' on (f, x) = those of lvls on
+   (f/c, x).  Any npre, npost, ncycle; pre_cycles = pc + 1. *)
+Theorem C02_cycle_scaling {S : Scalar} (Srt : Sring S) (Seqb : seqb_spec S) (c ci : S) (Hci : c * ci = s1)
+  npre npost ncycle (lvls' lvls : list (@level S)) :
+  hier_sim c ci lvls' lvls -> hier_wf lvls' -> hier_wf lvls ->
+  forall scr' scr f x, scratch_wf lvls' scr' -> scratch_wf lvls scr ->
+  length f = top_n lvls -> length x = top_n lvls ->
+  fst (cycle npre npost ncycle lvls' scr' f x) = fst (cycle npre npost ncycle lvls scr (vsc ci f) x).
+Proof. exact (cycle_sim Srt Seqb c ci Hci npre npost ncycle lvls' lvls). Qed.
+Print Assumptions C02_cycle_scaling.
+
+Theorem C02_apply_scaling {S : Scalar} (Srt : Sring S) (Seqb : seqb_spec S) (c ci : S) (Hci : c * ci = s1)
+  npre npost ncycle pc (lvls' lvls : list (@level S)) :
+  hier_sim c ci lvls' lvls -> hier_wf lvls' -> hier_lin lvls -> lvls <> [] ->
+  forall scr' scr f x x', scratch_wf lvls' scr' -> scratch_wf lvls scr ->
+  length f = top_n lvls -> length x = top_n lvls -> length x' = top_n lvls ->
+  fst (apply npre npost ncycle (Datatypes.S pc) lvls' scr' f x') =
+  vsc ci (fst (apply npre npost ncycle (Datatypes.S pc) lvls scr f x)).
+Proof. exact (apply_scaled Srt Seqb c ci Hci npre npost ncycle pc lvls' lvls). Qed.
+Print Assumptions C02_apply_scaling.
+
+(* the modelled smoothers (damped Jacobi, SPAI-0, Gauss-Seidel forward and backward) and the exact
+   coarse solve of c*A are those of A on f/c.  kind_scalable: every row has a non-zero (first,
+   resp. last) diagonal entry (Jacobi, Gauss-Seidel), no row has squared norm zero (SPAI-0). *)
+Theorem C02_std_smoothers_scale {S : Scalar} (Sft : Sfield S) (Seqb : seqb_spec S) (c : S) (Hc : c <> s0)
+  (Habs2 : forall v : S, sabs v * sabs v = v * v) (k : @relax_kind S) (A : crs S) :
+  wf A = true -> kind_scalable k A ->
+  sweep_sim (sinv c) (nrows A) (fst (mk_relax_std k (mscale A c))) (fst (mk_relax_std k A)) /\
+  sweep_sim (sinv c) (nrows A) (snd (mk_relax_std k (mscale A c))) (snd (mk_relax_std k A)).
+Proof. exact (mk_relax_std_sim Sft Seqb c Hc Habs2 k A). Qed.
+Print Assumptions C02_std_smoothers_scale.
+
+Theorem C02_exact_solve_scales {S : Scalar} (Sft : Sfield S) (Seqb : seqb_spec S) (c : S) (Hc : c <> s0)
+  (A : crs S) (f : vec S) :
+  dense_solve (mscale A c) f = dense_solve A (vsc (sinv c) f) /\ solvable (mscale A c) = solvable A.
+Proof. exact (conj (dense_solve_mscale Sft Seqb c Hc A f) (solvable_mscale Sft Seqb c Hc A)). Qed.
+Print Assumptions C02_exact_solve_scales.
+
+(* closed form for the executable model: hierarchy of c*M vs hierarchy of M (same transfer
+   operators ts, same parameters), any cycle shape, pre_cycles >= 1:
+       B(c M) f = (1/c) * B(M) f *)
+Theorem C02_built_apply_scaling {S : Scalar} (Sft : Sfield S) (Seqb : seqb_spec S) (c : S) (Hc : c <> s0)
+  (Habs2 : forall v : S, sabs v * sabs v = v * v)
+  k ce dc ml sc ts (M : crs S) npre npost ncycle pc :
+  let ls := amg_init ce dc ml (coarse_op_of sc) ts M in
+  let ls' := amg_init ce dc ml (coarse_op_of sc) ts (mscale M c) in
+  wf M = true -> ts_wf (nrows M) ts ->
+  (forall A, In (LSolve A) ls -> ncols A = nrows A /\ solvable A = true) ->
+  descs_scalable k ls ->
+  forall scr' scr f x x', scratch_wf (std_levels k ls') scr' -> scratch_wf (std_levels k ls) scr ->
+  length f = nrows M -> length x = nrows M -> length x' = nrows M ->
+  fst (apply npre npost ncycle (Datatypes.S pc) (std_levels k ls') scr' f x') =
+  vsc (sinv c) (fst (apply npre npost ncycle (Datatypes.S pc) (std_levels k ls) scr f x)).
+Proof. exact (built_apply_scaled Sft Seqb c Hc Habs2 k ce dc ml sc ts M npre npost ncycle pc). Qed.
+Print Assumptions C02_built_apply_scaling.
+
+Theorem C02_built_apply_scaling_Qc (c : T QcS) (Hc : c <> s0)
+  k ce dc ml sc ts (M : crs QcS) npre npost ncycle pc :
+  let ls := amg_init ce dc ml (coarse_op_of sc) ts M in
+  let ls' := amg_init ce dc ml (coarse_op_of sc) ts (mscale M c) in
+  wf M = true -> ts_wf (nrows M) ts ->
+  (forall A, In (LSolve A) ls -> ncols A = nrows A /\ solvable A = true) ->
+  descs_scalable k ls ->
+  forall scr' scr f x x', scratch_wf (std_levels k ls') scr' -> scratch_wf (std_levels k ls) scr ->
+  length f = nrows M -> length x = nrows M -> length x' = nrows M ->
+  fst (apply npre npost ncycle (Datatypes.S pc) (std_levels k ls') scr' f x') =
+  vsc (sinv c) (fst (apply npre npost ncycle (Datatypes.S pc) (std_levels k ls) scr f x)).
+Proof. exact (built_apply_scaled QcS_field QcS_eqb c Hc QcS_abs2 k ce dc ml sc ts M npre npost ncycle pc). Qed.
+Print Assumptions C02_built_apply_scaling_Qc.
+
+(* non-vacuity: the side conditions hold on the concrete 3-level hierarchies (Jacobi, SPAI-0,
+   Gauss-Seidel; direct solver resp. smoother on the last level; Galerkin and re-scaled Galerkin) *)
+Example C02_example_scaling_hypotheses :
+  descs_scalable exJac exH /\ descs_scalable (@RSpai0 QcS) exH /\ descs_scalable (@RGS QcS) exH' /\
+  descs_scalable exJac (amg_init 1 true 10 (coarse_op_of (Some (qc 2 3))) exTs exM) /\
+  wf exM = true /\ ts_wf (nrows exM) exTs /\
+  (forall A, In (LSolve A) exH -> ncols A = nrows A /\ solvable A = true).
+Proof.
+  split; [apply (descs_scalableb_ok QcS_eqb); vm_compute; reflexivity|].
+  split; [apply (descs_scalableb_ok QcS_eqb); vm_compute; reflexivity|].
+  split; [apply (descs_scalableb_ok QcS_eqb); vm_compute; reflexivity|].
+  split; [apply (descs_scalableb_ok QcS_eqb); vm_compute; reflexivity|].
+  split; [vm_compute; reflexivity|].
+  split; [apply ts_wfb_ok; vm_compute; reflexivity|].
+  apply solve_check_ok. vm_compute. reflexivity.
+Qed.
+
+(* concrete: 8 * M, V(1,1) and W(2,1) with pre_cycles = 2, Jacobi and Gauss-Seidel: B(8 M) f = B(M) f / 8;
+   and the re-scaled Galerkin operator (plain aggregation, over-interpolation) scales as well *)
+Example C02_example_scaling_concrete :
+  let z := [exq 0; exq 0; exq 0; exq 0] in
+  let c := exq 8 in
+  let B := fun kd sc npre npost nc pc (M : crs QcS) =>
+    let ls := amg_init 1 true 10 (coarse_op_of sc) exTs M in
+    fst (apply npre npost nc pc (std_levels kd ls) (map (@fresh_scratch QcS) ls) exF z) in
+  vec_eqb (B exJac None 1 1 1 1 (mscale exM c)) (vsc (sinv c) (B exJac None 1 1 1 1 exM)) = true /\
+  vec_eqb (B (@RGS QcS) None 2 1 2 2 (mscale exM c)) (vsc (sinv c) (B (@RGS QcS) None 2 1 2 2 exM)) = true /\
+  vec_eqb (B (@RSpai0 QcS) (Some (qc 2 3)) 1 2 1 1 (mscale exM c))
+          (vsc (sinv c) (B (@RSpai0 QcS) (Some (qc 2 3)) 1 2 1 1 exM)) = true.
+Proof. vm_compute. auto. Qed.
+
+(* the diagonal condition is needed: for a row whose diagonal entry is zero damped Jacobi uses the
+   identity (is_zero branch of diagonal(A, invert = true)), and the identity does not scale:
+   here B(2 M) f = B(M) f, not B(M) f / 2 *)
+Example C02_scaling_needs_diagonal :
+  let M : crs QcS := mkCrs 2 [[(0, exq 0); (1, exq 1)]; [(0, exq 1); (1, exq 0)]]%nat in
+  let f : vec QcS := [exq 1; exq 3] in let z := [exq 0; exq 0] in
+  let B := fun (M : crs QcS) =>
+    let ls := amg_init 5 false 10 (@galerkin QcS) [] M in
+    fst (apply 1 0 1 1 (std_levels exJac ls) (map (@fresh_scratch QcS) ls) f z) in
+  jacobi_scalableb M = false /\
+  vec_eqb (B (mscale M (exq 2))) (B M) = true /\
+  vec_eqb (B (mscale M (exq 2))) (vsc (sinv (exq 2)) (B M)) = false.
+Proof. vm_compute. auto. Qed.
+
+(* pre_cycles = 0 makes apply the identity (copy), which does not scale either *)
+Example C02_scaling_needs_a_cycle :
+  let z := [exq 0; exq 0; exq 0; exq 0] in
+  let B := fun (M : crs QcS) =>
+    let ls := amg_init 1 true 10 (@galerkin QcS) exTs M in
+    fst (apply 1 1 1 0 (std_levels exJac ls) (map (@fresh_scratch QcS) ls) exF z) in
+  vec_eqb (B (mscale exM (exq 2))) exF = true /\ vec_eqb (B exM) exF = true.
 Proof. vm_compute. auto. Qed.
